@@ -323,6 +323,10 @@ def three_letter_words(lang, rnd, n):
     return out
 
 
+FOREIGN_SCRIPT_TITLES = ["Україна сьогодні", "Недјеља код куће", "Ελλαδα ταξιδι", "Հայաստան", "საქართველო ღვინო", "ישראלי חדשות",
+                         "қазақстан жолы", "Беларусь кўп", "ქუთაისი", "Љубљана", "Μακεδονια", "ўзбекистон"]
+
+
 def run_words(lang, rnd, n):
     """words of five to seven letters in which one letter stands three or four times in a row ("zzz", brand names, sounds,
     Roman numerals), the run at the start, in the middle or at the end, with at least three distinct letters in all"""
@@ -508,6 +512,7 @@ def gen_span_cases(lang, rnd, titles, toks, ncases):
         recs = [rnd.choice(titles) for _ in range(n)]
         c = Case("C05", "spans", lang=lang)
         sid = c.new_store(lang, limit=rnd.choice([10, 10, n, 1, 2]))
+        adds_at = len(c.ops)
         for i, t in enumerate(recs):
             c.add(sid, 100 + i, t, rnd.randint(0, 100))
         qs = []
@@ -529,6 +534,13 @@ def gen_span_cases(lang, rnd, titles, toks, ncases):
                     qs.append(rnd.choice(letters) + w[1:rnd.randint(3, min(5, len(w)))])
                     qs.append(w[0] + rnd.choice(letters) + w[2:3])
         rnd.shuffle(qs)
+        if qs and rnd.random() < 0.5:
+            # the user was already typing while the catalogue was still empty (the same near misses, asked before the first
+            # record arrives), and once more when half of it is there
+            early = [dict(op="search", sid=sid, q=cps(q), want=["qtok"], rep=1) for q in qs[:4]]
+            half = adds_at + (len(recs) + 1) // 2
+            c.ops[half:half] = [dict(o) for o in early[:2]]
+            c.ops[adds_at:adds_at] = early
         for q in qs[:24]:
             c.search(sid, q)
         cases.append(c)
@@ -1550,6 +1562,14 @@ def gen_prepare_cases(lang, rnd, titles, toks, ncases):
             q = random_query(lang, rnd, recs, toks)
             for size in rnd.sample([0, 1, 2, 3], 2):
                 c.op(op="prepare", sid=sid, q=cps(q), size=size)
+        if k % 4 == 0:
+            # a pasted paragraph as the query (a dozen words, far more letters and grams than any title): the words a record
+            # shares with it stand at its end, in the middle or at its start
+            own = [w for w in " ".join(recs).split(" ") if w][:2] or ["a"]
+            filler = [w for w in " ".join(rnd.sample(titles, min(6, len(titles)))).split(" ") if w][:14]
+            for where in (len(filler), len(filler) // 2, 0):
+                q = " ".join(filler[:where] + own + filler[where:])[:180]
+                c.op(op="prepare", sid=sid, q=cps(q), size=rnd.choice([1, 3]))
         if k % 3 == 1:
             # the store is cleared and a smaller / other catalogue arrives: positions start again at 0
             # (asked right before and typed on right after; half of the time the new catalogue has as many records as the old)
@@ -1729,6 +1749,28 @@ def gen_registry_cases(rnd, ncases, pools, toks, length=30):
                     c.op(op="limit", sid=1007, limit=lim)
                 c.search(1007, q, tag="sa7", want=["qtok", "fresh"], rep=1)
                 c.op(op="r_search", id=7, q=cps(q))
+        if rnd.random() < 0.35 and 3 in ids and 3 not in live:
+            # one id whose top-rated list is full when records arrive that tie with its last entry: equal rating and a title
+            # before / after it in title order (the empty query is asked before and after each arrival)
+            lg = rnd.choice(LANGS)
+            live[3] = dict(lang=lg, titles=[])
+            c.op(op="r_create", id=3, lang=lg)
+            c.op(op="new", sid=1003, lang=lg)
+            k = rnd.choice([1, 2, 3])
+            c.op(op="r_limit", id=3, limit=k)
+            c.op(op="limit", sid=1003, limit=k)
+            ws = sorted({rand_word(rnd, script_letters(lg), 4, 6) for _k in range(k + 4)})
+            mid = ws[1:k + 2]
+            rts = list(range(50, 50 - 10 * len(mid), -10))
+            arrivals = list(zip(mid, rts)) + [(ws[0], rts[k - 1]), (ws[-1], rts[k - 1]), (ws[0] + "a", rts[0])]
+            for n_, (t, rt) in enumerate(arrivals):
+                c.op(op="r_add", id=3, rid=nrid, title=cps(t), rating=rt)
+                c.op(op="add", sid=1003, id=nrid, title=cps(t), rating=rt)
+                live[3]["titles"].append(t)
+                nrid += 1
+                if n_ >= len(mid) - 1:
+                    c.search(1003, "", tag="sa3", want=["qtok", "fresh"], rep=1)
+                    c.op(op="r_search", id=3, q=[])
         for _s in range(length):
             r = rnd.random()
             if (r < 0.15 or not live) and len(live) < len(ids):
@@ -1964,6 +2006,45 @@ def gen_huge_store_cases(prop, lang, rnd, titles, ncases):
     return cases
 
 
+def gen_two_store_cases(prop, lang, rnd, titles):
+    """two stores living on one thread (scratch state and anything kept per thread is shared between them): one of them is
+    cleared, refilled with fewer records, dropped - and the other, larger one is searched after each of these steps"""
+    cases = []
+    for order in (0, 1):
+        c = Case(prop, "two-stores", lang=lang)
+        a = c.new_store(lang)
+        b = c.new_store(lang if order else rnd.choice(LANGS))
+        ta = [rnd.choice(titles) for _k in range(rnd.randint(3, 6))]
+        tb = [rnd.choice(titles) for _k in range(rnd.randint(8, 14))]
+        for i, t in enumerate(ta):
+            c.add(a, 100 + i, t, rnd.randint(0, 1000))
+        for i, t in enumerate(tb):
+            c.add(b, 200 + i, t, rnd.randint(0, 1000))
+        qa = (rnd.choice(ta).split() or ["a"])[0][:4] or "a"
+        qb = (tb[-1].split() or ["a"])[0][:4] or "a"          # reaches the last position of the larger store
+        want = ["qtok", "fresh"]
+        def ask():
+            c.search(b, qb, want=want, rep=1)
+            c.search(b, "", want=want, rep=1)
+            if order:
+                c.op(op="prepare", sid=b, q=cps(qb), size=2)
+        c.search(a, qa, want=want, rep=1)
+        ask()
+        c.op(op="clear", sid=a)
+        ask()
+        c.add(a, 150, rnd.choice(titles), 5)
+        c.search(a, qa, want=want, rep=1)
+        ask()
+        c.op(op="drop", sid=a)
+        ask()
+        a2 = c.new_store(lang)
+        c.add(a2, 300, rnd.choice(titles), 1)
+        c.search(a2, qa, want=want, rep=1)
+        ask()
+        cases.append(c)
+    return cases
+
+
 def gen_long_lived_store_cases(prop, lang, rnd):
     """a store that has been in use for a long time: between two judged searches of the same prefix the store answers
     other queries 2^8 and 2^16 times, give or take one (the sizes at which narrow counters, stamps and generation numbers
@@ -1978,12 +2059,17 @@ def gen_long_lived_store_cases(prop, lang, rnd):
     sid = c.new_store(lang, limit=10)
     c.add(sid, 1, w1 + " " + x1, rnd.randint(0, 1000))
     c.add(sid, 2, w2 + " " + x2, rnd.randint(0, 1000))
-    want = ["qtok", "fresh"] if prop == "C10" else ["qtok"]
+    want = {"C10": ["qtok", "fresh"], "C06": ["qtok", "singles", "unlimited"]}.get(prop, ["qtok"])
     ex1 = {"expect": dict(prop="C03", kind="prefix", rid=1, widx=1)} if prop == "C03" else {}
     ex2 = {"expect": dict(prop="C03", kind="prefix", rid=2, widx=1)} if prop == "C03" else {}
+    # a near miss of the first record's word that shares no gram with it (first two letters swapped)
+    near = w1[1] + w1[0] + w1[2:4]
     c.search(sid, w1[:2], want=want, rep=1, **ex1)
+    c.search(sid, w1, want=want, rep=1, **ex1)
     for gap in (254, 255, 256, 257, 65534, 65535, 65536, 65537):
         c.search(sid, w2[:2], want=want, times=gap, rep=1, **ex2)       # rep: repeated searches are the point (not de-duplicated)
+        if prop in ("C05", "C06", "C10"):
+            c.search(sid, near, want=want, rep=1)      # the first query to come near the first record again
         c.search(sid, w1[:2], want=want, rep=1, **ex1)
         c.search(sid, w1, want=want, rep=1, **ex1)
     return [c]
